@@ -433,7 +433,7 @@ INT_SPELLINGS = ['0', '7', '-7', '+7', '007', '017', '0o17', '0x1F', '0x1f', '-0
                  '0b101', '1_000', '0b1_0', '190:20:30', '1:30', '-1:30', '0x_', '0',
                  '00', '123456789012345678901234567890', '~', 'null', 'Null', 'NULL',
                  '', '""', "''", '"1"', "'true'", '"~"', '!!str 1', '!!int "7"',
-                 '!!float 1', '!!null ""', '!!bool "true"', 'yes', 'No', 'on',
+                 '!!float 1', '!!null ""', '!!bool "true"', '!!bool yes', '!!bool on', '!!bool No', '!!bool OFF', '!!bool y', 'yes', 'No', 'on',
                  '2001-01-01', '1.5', '.5', '5.', '1e5', '-.inf', '.NaN', '+.INF',
                  '1.0e+22', '1E-3', 'true', 'True', 'TRUE', 'false', 'False', 'FALSE',
                  'a', 'a b', '"a\\nb"', '|\n  lit\n', '>\n  folded\n', '[1]', '{a: 1}']
